@@ -42,6 +42,13 @@ def gen_cases(ctx):
                     "layout": rng.choice(["sparse", "sparse", "dense"]), "ref": rng.choice([None, 0, 98765, 250000]),
                     "seed": rng.randrange(10**6), "compact": rng.random() < 0.5,
                     "rem": rng.choice([0, 0, 250, 590]), "pextra": rng.choice([0, 0, 0, 150, 450]), "rev": rng.random() < 0.3})
+    # fixed dense histories: between two records some particles die and at least as many are released (the number of
+    # living particles does not go down, its composition changes); deaths only; a death and nothing else
+    for compact in (True, False):
+        for hist in ([[["release", 3]], [["killfirst", 1], ["release", 1]], [["killfirst", 1], ["release", 2]], []],
+                     [[["release", 2]], [["release", 2], ["killfirst", 2]], [["release", 1]], [["killfirst", 1]]]):
+            out.append({"k": "hist", "hist": hist, "p": 1, "numrec": 0, "layout": "dense", "ref": 0, "seed": 4711, "compact": compact,
+                        "rem": 0, "pextra": 0, "rev": False})
     import sim_impl as si
 
     for _ in range(2 if ctx.quick else 20):
@@ -125,6 +132,12 @@ def eval_case(desc, ctx):
             elif op[0] == "kill":
                 m = rng.random(len(st)) < op[1]
                 if m.any() and st.alive[m].any():
+                    death_before_record = True
+                st["alive"] = st.alive & ~m
+            elif op[0] == "killfirst":
+                m = np.zeros(len(st), dtype=bool)
+                m[np.flatnonzero(st.alive)[: op[1]]] = True
+                if m.any():
                     death_before_record = True
                 st["alive"] = st.alive & ~m
             elif op[0] == "killall":
